@@ -31,7 +31,9 @@ EXPLANATION = (
 ASSUMPTIONS = ['pickle round-trips TestSerialisation/InstallData unchanged',
                'Target.get_target() returns the target itself (CustomTargetIndex: its parent)',
                'a run target has no output file: its dummy directory is outside R3']
-TECHNIQUE = 'origin-set flow + CFG dominance + path-sensitive symbolic tables + sibling agreement over ast'
+TECHNIQUE = ('def-use origin sets (single source of truth, sibling field agreement) + CFG dominance (ordering, record-before-emit) + '
+             'who-may-write + path enumeration with copy propagation into symbolic path terms compared per world of the branch atoms + '
+             'key tables parsed from the documentation; no repository code is interpreted on input values')
 
 
 # ---------------------------------------------------------------------------
